@@ -54,8 +54,8 @@ Definition lift (ip bgpid : N) (ibgp : bool) (q : AdjRIBIn.path) : AdjRIBOut.pat
 
 (* Loc-RIB prefixes are nat *)
 Definition lpfx (p : N) : LocRIBClients.pfx := N.to_nat p.
-(* update sender prefixes: every prefix of the pipeline is a /16 *)
-Definition upfx (p : N) : UpdateSender.pfx := UpdateSender.mkpfx p 16%N.
+(* update sender prefixes: a prefix id is address * 64 + length (a bijection between N and (address, length < 64)) *)
+Definition upfx (p : N) : UpdateSender.pfx := UpdateSender.mkpfx (p / 64)%N (p mod 64)%N.
 
 Definition is_some {A : Type} (o : option A) : bool := match o with Some _ => true | None => false end.
 
